@@ -553,8 +553,11 @@ def interpolate_ntv2(grid_object, lat, lon, method='bicubic'):
     # Determine number of columns in grid, and row and column of node to bottom right of
     # point of interest, then call relevant interpolation method function
 
-    # determine number of columns
-    num_cols = 1 + int((in_grid.w_long - in_grid.e_long) / in_grid.long_inc)
+    # determine number of columns (the quotient of the extent and the increment
+    # is a whole number that floating point may return a hair too small, e.g.
+    # (297606.622 - 251706.622) / 900 = 50.99999999999996)
+    num_cols = 1 + int(round((in_grid.w_long - in_grid.e_long)
+                             / in_grid.long_inc))
 
     # determine row and col numbers of node below right of point
     row = int((lat - in_grid.s_lat) / in_grid.lat_inc)
